@@ -27,11 +27,19 @@ import (
 )
 
 const (
-	repoDir  = "/repo"
-	verifDir = "/verif"
-	goBin    = "/opt/veriftools/go1.26.8/bin/go"
-	modPath  = "github.com/VKCOM/tl"
+	repoDir = "/repo"
+	goBin   = "/opt/veriftools/go1.26.8/bin/go"
+	modPath = "github.com/VKCOM/tl"
 )
+
+// verifDir is where harness sources, evidence, replays and known_findings.json live: the directory of
+// the ./check script that started us (VERIF_DIR), /verif by default.
+var verifDir = func() string {
+	if d := os.Getenv("VERIF_DIR"); d != "" {
+		return d
+	}
+	return "/verif"
+}()
 
 func die(code int, format string, a ...any) {
 	fmt.Fprintf(os.Stderr, "tlsim: "+format+"\n", a...)
